@@ -1,7 +1,7 @@
 (* ExArgIndexProofs.v — C04 (b): obligations over the source-derived tables of coq/gen/ArgIndex.v
    (regenerated from /repo on every run by translators/cmd/argindex), and the meaning of [site_ok]. *)
 From Coq Require Import ZArith List Bool String Lia.
-From Verif Require Import model.ExArgIndex model.ExEval gen.ArgIndex.
+From Verif Require Import model.ExArgIndex model.ExValues model.ExEval gen.ArgIndex.
 Import ListNotations.
 Open Scope Z_scope.
 
@@ -43,11 +43,13 @@ Proof. vm_compute. repeat split; reflexivity. Qed.
 Lemma base_arity_checks_as_model : forallb snd base_arity_checks = true /\ List.length base_arity_checks = 3%nat.
 Proof. vm_compute. split; reflexivity. Qed.
 
-(* the limit on decimal exponents is in the source and is the model's; Multiply starts with the exponent guard,
-   Divide and Mod start with the zero-divisor guard, Exponent with its three guards *)
+(* the limits on decimal exponents, on the length of texts and on the size of values are in the source and are the
+   model's; Concatenate starts with the length guard, Multiply with the exponent and digits guards, Divide and Mod
+   with the zero-divisor guard, Exponent with its three guards, Repeat with its length guard *)
 Lemma operator_guards_in_source :
-  max_number_exponent_src = max_number_exponent /\ forallb snd operator_guards = true
-  /\ List.length operator_guards = 9%nat.
+  max_number_exponent_src = max_number_exponent /\ max_text_length_src = max_text_length
+  /\ max_render_size_src = max_render_size /\ forallb snd operator_guards = true
+  /\ List.length operator_guards = 11%nat.
 Proof. vm_compute. repeat split; reflexivity. Qed.
 
 (* ------------------------------------------------------------------------------------------------ *)
